@@ -700,6 +700,28 @@ func (ev *Evaluator) LoadField(st *State, ptr *T, fields ...string) *T {
 				}
 			}
 			if addr == nil {
+				// a path written for the reviewed tree's composition (executor → policy → config → f) on a tree where an
+				// intermediate object was flattened away (the executor holds the config directly): when this step is
+				// missing but the next one is present right here, the step is skipped
+				if i < len(fields)-1 && stt != nil {
+					if s2, isS := stt.Underlying().(*types.Struct); isS {
+						next := fields[i+1]
+						if n2, isN := stt.(*types.Named); isN && n2.Obj().Pkg() != nil {
+							if a, okA := toActual[n2.Obj().Pkg().Name()+"."+typeCanonName(n2.Obj())+"."+next]; okA && !strings.Contains(a, ".") {
+								next = a
+							}
+						}
+						for j := 0; j < s2.NumFields(); j++ {
+							if s2.Field(j).Name() == next || embeddedCanon(s2.Field(j)) == next {
+								c2 := cur
+								if c2.Typ == nil {
+									c2.Typ = typ
+								}
+								return ev.LoadField(st, c2, fields[i+1:]...)
+							}
+						}
+					}
+				}
 				if debugLoadField {
 					fmt.Printf("LoadField: no field %q on %s (type %v)\n", f, cur, typ)
 				}
